@@ -242,17 +242,6 @@ IaLoop(f, g, ks, j, shift, find, repl) ==
       LET x == IaFix(s.rem, find, repl, Len(find)) IN
       IaLoop(SetPt(f, key, Pt(s.add, x.rem)), g, ks, j + 1, shift, x.find, x.repl)
 
-\* the incoming settings objects are cloned (fresh identities: id + off), so that objects shared between the operands
-\* (a copy of self, or self) are never mixed up when the seams are merged
-RenameTab(g, off) == Strict([k \in DOMAIN g |-> Pt([i \in DOMAIN g[k].add |-> <<g[k].add[i][1] + off, g[k].add[i][2]>>],
-                                                   [i \in DOMAIN g[k].rem |-> <<g[k].rem[i][1] + off, g[k].rem[i][2]>>])])
-MaxInst(f) == LET S == UNION {{f[k].add[i][1] : i \in DOMAIN f[k].add} \cup {f[k].rem[i][1] : i \in DOMAIN f[k].rem} : k \in DOMAIN f}
-              IN IF S = {} THEN 0 ELSE CHOOSE x \in S : \A y \in S : y <= x
-CPIAdd(t, f, u, g) ==
-  LET off == MaxInst(f) + MaxInst(g) + 1
-      g2 == RenameTab(g, off)
-  IN << t \o u, IaLoop(f, g2, SortedSeq(DOMAIN g2), 1, Len(t), << >>, << >>) >>
-
 \* canonical instance numbering (first occurrence, keys ascending, add before rem): tables equal up to renaming of objects
 RECURSIVE CanonWalk(_, _, _, _)
 CanonWalk(f, ks, j, seen) ==       \* seen: sequence of instance ids in order of first occurrence
@@ -269,6 +258,21 @@ CanonTab(f) ==
   IN [k \in DOMAIN f |-> Pt([i \in DOMAIN f[k].add |-> <<CanonNo(f[k].add[i][1]), f[k].add[i][2]>>],
                             [i \in DOMAIN f[k].rem |-> <<CanonNo(f[k].rem[i][1]), f[k].rem[i][2]>>])]
 SameTab(f, g) == CanonTab(f) = CanonTab(g)
+
+\* the incoming settings objects are cloned (fresh identities above mine, numbered compactly in order of first
+\* occurrence so that identities stay small however many concatenations follow one another), so that objects shared
+\* between the operands (a copy of self, or self) are never mixed up when the seams are merged
+MaxInst(f) == LET S == UNION {{f[k].add[i][1] : i \in DOMAIN f[k].add} \cup {f[k].rem[i][1] : i \in DOMAIN f[k].rem} : k \in DOMAIN f}
+              IN IF S = {} THEN 0 ELSE CHOOSE x \in S : \A y \in S : y <= x
+RenameTab(g, base) ==
+  LET order == CanonWalk(g, SortedSeq(DOMAIN g), 1, << >>)
+      No(x) == base + (CHOOSE q \in DOMAIN order : order[q] = x)
+  IN Strict([k \in DOMAIN g |-> Pt([i \in DOMAIN g[k].add |-> <<No(g[k].add[i][1]), g[k].add[i][2]>>],
+                                   [i \in DOMAIN g[k].rem |-> <<No(g[k].rem[i][1]), g[k].rem[i][2]>>])])
+CPIAdd(t, f, u, g) ==
+  LET g2 == RenameTab(g, MaxInst(f))
+  IN << t \o u, IaLoop(f, g2, SortedSeq(DOMAIN g2), 1, Len(t), << >>, << >>) >>
+
 
 ---------------------------------------------------------------------------
 \* _shift_settings_idx(num, keep_origin)
@@ -373,7 +377,7 @@ ReplLoop(t, f, old, newKind, newT, newF, left, idx, base) ==
         b == CPIAdd(a[1], a[2], tail[1], tail[2])
         from == idx + Len(newT) + (IF old = << >> THEN 1 ELSE 0)
         nidx == IF from > Len(b[1]) THEN -1 ELSE Find(b[1], old, from, Len(b[1]))
-    IN ReplLoop(b[1], b[2], old, newKind, newT, newF, IF left > 0 THEN left - 1 ELSE left, nidx, base + Len(cur) + MaxInst(b[2]) + 1)
+    IN ReplLoop(b[1], b[2], old, newKind, newT, newF, IF left > 0 THEN left - 1 ELSE left, nidx, MaxInst(b[2]) + 1)
 
 CPReplace(t, f, old, newKind, newT, newF, count) ==
   ReplLoop(t, f, old, newKind, newT, newF, count, Find(t, old, 0, Len(t)), MaxInst(f) + MaxInst(newF) + 1)
